@@ -94,6 +94,11 @@ def invalid_ops(lp, slot=0):
         ops.append(("loadbasisarray %d %s %s" % (slot, good_c or "-", "0" + good_r[1:]), "basis basic count (array)"))
     if nc:
         ops.append(("loadbasisarray %d %s %s" % (slot, "1" + good_c[1:], good_r or "-"), "basis basic count (array)"))
+    # pivot-in calls (solved states only make them meaningful; the guards must hold in every state)
+    for b in boundary(nc + nr, 0):
+        ops.append(("pivotin %d c 1 %d" % (slot, b), "internal column index"))
+    for b in boundary(nr, nc):
+        ops.append(("pivotin %d r 1 %d" % (slot, b), "row index"))
     # parameters
     for w, v in ((-1, 1), (99, 1), (1, 1), (3, 1), (0, 999), (0, -1), (2, 999), (2, 0), (4, 4), (4, -1), (5, 0), (5, -5), (7, 2), (7, -1)):
         ops.append(("setparam %d %d %d" % (slot, w, v), "parameter"))
